@@ -291,6 +291,14 @@ func (e *env) summarise() (string, []sched.Viol) {
 			byXid[fmt.Sprintf("%x", d[1:4])] = d
 		}
 	}
+	asked := map[string]int{} // requests per transaction id (a retransmission repeats it)
+	for _, d := range e.spec.Dgrams {
+		if e.spec.Proto == 4 && len(d) >= 8 {
+			asked[fmt.Sprintf("%08x", d[4:8])]++
+		} else if e.spec.Proto == 6 && len(d) >= 4 {
+			asked[fmt.Sprintf("%x", d[1:4])]++
+		}
+	}
 	seen := map[string]int{}
 	for _, s := range e.sent {
 		if e.spec.Proto == 4 {
@@ -382,7 +390,7 @@ func (e *env) summarise() (string, []sched.Viol) {
 		}
 	}
 	for x, n := range seen {
-		if n > 1 {
+		if n > 1 && n > asked[x] {
 			viols = append(viols, sched.Viol{Sig: "duplicate-reply", What: fmt.Sprintf("%d replies with transaction id %s", n, x)})
 		}
 	}
@@ -610,6 +618,8 @@ func Specs(thorough bool) []Spec {
 		{Name: "v4/S4b-unknown-client-lookup+reload", Proto: 4, Blocks: 2, Reload: true, Dgrams: [][]byte{Discover4(a, 0x1601, nil), Discover4(StaticMAC, 0x1602, nil)}},
 		{Name: "v4/S5-buffer-reuse-two-different-datagrams", Proto: 4, Blocks: 4, Dgrams: [][]byte{Discover4(a, 0x1601, []byte{6, 1, 3}), Request4(b, 0x1602, nil)}},
 		{Name: "v4/S5b-truncated-datagram-after-a-longer-one", Proto: 4, Blocks: 4, Dgrams: [][]byte{Discover4(a, 0x1601, []byte{6, 1, 3, 15, 42, 51, 54}), noEnd(Discover4(b, 0x1602, nil)), noEnd(Request4(c, 0x1603, []byte{6}))}},
+		{Name: "v4/S1d-retransmission-identical-datagram-twice", Proto: 4, Blocks: 2, Dgrams: [][]byte{Discover4(a, 0x1601, []byte{6}), Discover4(a, 0x1601, []byte{6})}},
+		{Name: "v6/S1d-retransmission-identical-datagram-twice", Proto: 6, Blocks: 2, Dgrams: [][]byte{Solicit6(a, x(1), true, false, ""), Solicit6(a, x(1), true, false, "")}},
 		{Name: "v6/S1-same-client-two-solicits", Proto: 6, Blocks: 2, Dgrams: [][]byte{Solicit6(a, x(1), true, false, ""), Solicit6(a, x(2), true, false, "")}},
 		{Name: "v6/S1b-same-client-two-IA_PDs-each", Proto: 6, Blocks: 8, Dgrams: [][]byte{Solicit6x(a, x(1), "2001:db8:0:15::/64", "2001:db8:0:16::/64"), Solicit6x(a, x(2), "2001:db8:0:11::/64", "")}},
 		{Name: "v6/S1c-same-client-two-hintless-IA_PDs+new-hint", Proto: 6, Blocks: 8, Dgrams: [][]byte{Solicit6x(a, x(1), "", ""), Solicit6(a, x(2), true, false, "2001:db8:0:13::/64")}},
